@@ -163,6 +163,8 @@ class Blake2(Blake):
         except StopIteration:
             blk = None
         while (blk):
+            # byte counter up to and including blk (read before the look-ahead advances it):
+            self.t = self.padmethod.bitcnt//8
             try: #forsee last block:
                 nextblk = next(g)
             except StopIteration:
@@ -199,7 +201,7 @@ class Blake2(Blake):
             v[0:8] = self.H
             v[8:12] = self.IV[0:4]
             # counter of *bytes*, in little-endian
-            t = Bits(self.padmethod.bitcnt//8,2*self.wsize).split(self.wsize)
+            t = Bits(self.t,2*self.wsize).split(self.wsize)
             v[12:14] = Poly(t,self.wsize)^self.IV[4:6]
             v[14:16] = self.f^self.IV[6:8]
             for r in range(self.rounds):
